@@ -113,8 +113,12 @@ func c08Wiring(p *Prog, r *Report) {
 	sess := p.Named("proxycore", "Session")
 	onEvent := p.methodOf(sess, "OnEvent")
 	npc := 0
+	isCfg := func(t types.Type) bool { return typeIs(t, "proxycore", "connPoolConfig") }
 	for _, fn := range withCallees(p, onEvent, 2) {
-		for _, lit := range structLits(fn, func(t types.Type) bool { return typeIs(t, "proxycore", "connPoolConfig") }) {
+		if isLiteralConstructor(p, fn, isCfg) {
+			continue // judged at its call sites
+		}
+		for _, lit := range structLitsVia(p, fn, isCfg) {
 			npc++
 			ok := strings.HasSuffix(fieldPath(lit["SessionConfig"]), ".config")
 			r.check(ok, rule, fmt.Sprintf("connPoolConfig#%d@%s", npc, fn.Name()), p.Pos(fn.Pos()), "", "pool created with something other than the session's configuration")
